@@ -156,7 +156,7 @@ func e1EvalBoxInner(x []byte, p e1Props) (fails []e1Fail, accepted bool, box mp4
 		}
 		if accSR && eerr != nil {
 			if p.C01 {
-				fails = append(fails, e1Fail{"C01", "re-encode fails " + bSR.Type(), "an accepted byte string can be re-encoded", eerr.Error()})
+				fails = append(fails, e1Fail{"C01", "re-encode fails: " + errRoot(eerr), "an accepted byte string can be re-encoded", bSR.Type() + ": " + eerr.Error()})
 			}
 			encSR = nil
 		}
@@ -166,7 +166,7 @@ func e1EvalBoxInner(x []byte, p e1Props) (fails []e1Fail, accepted bool, box mp4
 		if p.C03 && accRD {
 			var w bytes.Buffer
 			if call(func() { _ = bRD.Encode(&w) }) == "" && bytes.Equal(w.Bytes(), x) {
-				fails = append(fails, e1Fail{"C03", "reader-path fixed point rejected by SR path " + bRD.Type(), "a byte string the reader path reproduces exactly is accepted by the SliceReader path", fmt.Sprint(errSR)})
+				fails = append(fails, e1Fail{"C03", "reader-path fixed point rejected by SR path: " + errRoot(errSR), "a byte string the reader path reproduces exactly is accepted by the SliceReader path", bRD.Type() + ": " + fmt.Sprint(errSR)})
 			}
 		}
 		return fails, accepted, nil, nil
@@ -198,12 +198,55 @@ func e1EvalBoxInner(x []byte, p e1Props) (fails []e1Fail, accepted bool, box mp4
 	// ---- C03: fixed points accepted by the other path with an equivalent structure
 	if p.C03 && bytes.Equal(encSR, x) {
 		if !accRD {
-			fails = append(fails, e1Fail{"C03", "SR-path fixed point rejected by reader path " + typ, "a byte string the SliceReader path reproduces exactly is accepted by the io.Reader path", fmt.Sprint(errRD)})
+			fails = append(fails, e1Fail{"C03", "SR-path fixed point rejected by reader path: " + errRoot(errRD), "a byte string the SliceReader path reproduces exactly is accepted by the io.Reader path", typ + ": " + fmt.Sprint(errRD)})
 		} else if d := deepeq.Diff(bSR, bRD, &deepeq.Options{Ignore: c01Ignore}); d != "" {
 			fails = append(fails, e1Fail{"C03", "decoders give different structures " + typ + " " + fieldOf(d), "both decode paths yield equivalent structures", d})
 		}
 	}
 	return fails, accepted, bSR, encSR
+}
+
+// errRoot reduces a nested decode error ("decode a pos 0: decode b pos 36: msg 37 ...") to "<innermost box>: <msg
+// without numbers>", the root-cause key used in signatures.
+func errRoot(err error) string {
+	if err == nil {
+		return "no error"
+	}
+	msg := err.Error()
+	inner := ""
+	for {
+		i := strings.Index(msg, "decode ")
+		if i != 0 {
+			break
+		}
+		rest := msg[len("decode "):]
+		j := strings.Index(rest, ": ")
+		if j < 0 {
+			break
+		}
+		head := rest[:j]
+		if k := strings.Index(head, " pos "); k >= 0 {
+			inner = strings.Trim(strings.TrimPrefix(head[:k], "box "), "\"")
+		} else {
+			inner = strings.Trim(strings.TrimPrefix(head, "box "), "\"")
+		}
+		msg = rest[j+2:]
+	}
+	var b strings.Builder
+	for _, r := range msg {
+		if r >= '0' && r <= '9' {
+			continue
+		}
+		b.WriteRune(r)
+	}
+	m := b.String()
+	if i := strings.Index(m, ","); i > 0 {
+		m = m[:i]
+	}
+	if len(m) > 60 {
+		m = m[:60]
+	}
+	return inner + ": " + strings.TrimSpace(m)
 }
 
 func clip(b []byte) []byte {
